@@ -233,14 +233,11 @@ func c16Run(x *kit.Ctx, cs C16Case, check bool) (res c16Result) {
 		tr.Faults = cs.Faults
 		defer tr.Stop()
 		hooked = tr.Hooked
-		lensNow = func() (l []int) {
-			for _, r := range tr.Log {
-				if !r.Synthetic && r.Kind == "write" {
-					l = append(l, len(r.Data))
-				}
-			}
-			return
-		}
+		// requested lengths, faulted writes included (tr.Log has no record of a faulted write
+		// of which nothing reached the file)
+		rec := drv.NewLenRecorder(f)
+		defer rec.Stop(f)
+		lensNow = rec.Lens
 		final = func() []byte { b, _ := os.ReadFile(path); return b }
 		s, err := c06Open(cs.Front, f, roots, cs.Opts, len(cs.Pre) > 0)
 		openErr = err
@@ -327,11 +324,16 @@ func c16Run(x *kit.Ctx, cs C16Case, check bool) (res c16Result) {
 		res.openFail = true
 		return
 	}
-	if faultIn(0, hooked()) {
-		fail("fault-swallowed:open", "a write fault during construction was not reported")
-	}
-
 	faultSeen := false // a fault fired in some call so far
+	if faultIn(0, hooked()) {
+		// The statement speaks of Put and Finalize. A constructor that does not report a
+		// failed write is recorded; the session goes on and the statement's second sentence
+		// decides (if every later call succeeds the archive must be right).
+		if check {
+			x.Outcome("beyond-statement:fault-swallowed:open")
+		}
+		faultSeen = true
+	}
 	failAfter := false // a call that met no fault failed after the last fault
 	var absent []kit.Blk
 	var maybe []kit.Blk // blocks of a failed PutMany that precede the failing one
@@ -402,7 +404,9 @@ func c16Run(x *kit.Ctx, cs C16Case, check bool) (res c16Result) {
 			if has {
 				fail("failed-block-reported", "Put(%s) failed but Has reports the block (%s)", b.Name, stage)
 			} else if herr != nil && open {
-				fail("has-error", "after the failed write (%s) Has(%s) fails: %v", stage, b.Name, herr)
+				// the block is not reported as stored; that the store answers at all is
+				// not in the statement
+				x.Outcome("beyond-statement:has-error-after-failed-write")
 			}
 			if _, gerr, ok := w.Get(b); ok && gerr == nil {
 				fail("failed-block-readable", "Put(%s) failed but Get returns the block (%s)", b.Name, stage)
@@ -421,13 +425,13 @@ func c16Run(x *kit.Ctx, cs C16Case, check bool) (res c16Result) {
 			if herr == nil && !has {
 				fail("acked-block-lost", "Put(%s) succeeded but after the failed write (%s) Has reports false", b.Name, stage)
 			} else if herr != nil && open {
-				fail("has-error", "after the failed write (%s) Has(%s) of an acknowledged block fails: %v", stage, b.Name, herr)
+				x.Outcome("beyond-statement:has-error-after-failed-write")
 			}
 			if d, gerr, ok := w.Get(b); ok {
 				if gerr == nil && !bytes.Equal(d, b.Data) {
 					fail("acked-block-corrupt", "Put(%s) succeeded but after the failed write (%s) Get returns %x", b.Name, stage, clip(d))
 				} else if gerr != nil && open {
-					fail("acked-block-unreadable", "Put(%s) succeeded but after the failed write (%s) Get fails: %v", b.Name, stage, gerr)
+					x.Outcome("beyond-statement:get-error-after-failed-write")
 				}
 			}
 		}
@@ -447,7 +451,7 @@ func c16Run(x *kit.Ctx, cs C16Case, check bool) (res c16Result) {
 		if keys, kerr, ok := w.Keys(); ok {
 			if kerr != nil {
 				if open {
-					fail("keys-error", "after the failed write (%s) AllKeysChan fails: %v", stage, kerr)
+					x.Outcome("beyond-statement:keys-error-after-failed-write")
 				}
 			} else {
 				for _, k := range keys {
@@ -517,6 +521,13 @@ func c16Run(x *kit.Ctx, cs C16Case, check bool) (res c16Result) {
 		stored := false
 		for a := 0; a < attempts && !stored; a++ {
 			before := hooked()
+			// the blocks of the batch for which PutMany writes nothing: not stored by rule,
+			// present before the call (asked of the store itself), or repeated in the batch
+			skip := make([]bool, len(batch))
+			for i, b := range batch {
+				has, herr := w.Has(b)
+				skip[i] = notStoredByRule(b) || (!cs.Opts.AllowDup && (herr == nil && has || sameHash(batch[:i], b)))
+			}
 			err, injected := call("putmany", func() error { return w.PutMany(batch) })
 			if err == nil {
 				stored = true
@@ -527,23 +538,42 @@ func c16Run(x *kit.Ctx, cs C16Case, check bool) (res c16Result) {
 				}
 				continue
 			}
-			// the block that was being written when the fault fired: every section is
-			// three writes (length, CID, data)
+			// the block that was being written when the fault fired, located by BYTES (the
+			// section sizes are fixed by the format; how many write calls a section takes,
+			// and which blocks are skipped as present, is the implementation's business):
+			// the sections completed by the writes of this call that precede the faulted one
 			failing := 0
 			if injected {
+				first := -1
 				for _, ft := range cs.Faults {
-					if ft.At >= before && ft.At < hooked() {
-						failing = (ft.At - before) / 3
+					if ft.At >= before && ft.At < hooked() && (first < 0 || ft.At < first) {
+						first = ft.At
+					}
+				}
+				done := 0
+				for i, l := range lensNow() {
+					if i >= before && i < first {
+						done += l
+					}
+				}
+				for ; failing < len(batch); failing++ {
+					if skip[failing] {
+						continue
+					}
+					sz := c16SectionSize(batch[failing])
+					if done < sz {
 						break
 					}
+					done -= sz
 				}
 			}
 			for i, b := range batch {
 				if i < failing {
-					if !inList(maybe, b) {
+					if !inList(maybe, b) && !inList(okBlocks, b) {
 						maybe = append(maybe, b)
 					}
-				} else if !inList(maybe, b) && !inList(absent, b) {
+					absent = drop(absent, b)
+				} else if !inList(maybe, b) && !inList(absent, b) && !inList(okBlocks, b) {
 					absent = append(absent, b)
 				}
 			}
@@ -622,17 +652,50 @@ func c16Run(x *kit.Ctx, cs C16Case, check bool) (res c16Result) {
 			got = append(got, refcar.Block{Cid: s.Cid, Data: s.Data})
 		}
 	}
-	if d := sameBlocks(got, want, true); d != "" {
+	// "contains exactly the blocks": as a multiset, the statement fixes no order
+	if d := c16SameBlockSet(got, want); d != "" {
 		fail("wrong-blocks", "finalized archive does not hold exactly the successfully put blocks: %s", d)
 	}
 	if !v1 {
 		if !fl.HasIndex {
-			fail("malformed-archive", "no index")
+			// a CARv2 without index is well-formed; that Finalize writes one is documented
+			// behaviour outside the statement
+			x.Outcome("beyond-statement:no-index")
 		} else if g, w2 := recMultiset(fl.IndexCodec, fl.Index), recMultiset(fl.IndexCodec, refcar.RecordsOf(fl.Payload, cs.Opts.StoreID)); g != w2 {
 			fail("malformed-archive", "index {%s} does not match payload {%s}", g, w2)
 		}
 	}
 	return
+}
+
+// c16SectionSize is the number of bytes of the block's section: varint(len(CID)+len(data)),
+// CID, data.
+func c16SectionSize(b kit.Blk) int {
+	n := len(b.Raw) + len(b.Data)
+	sz := n + 1
+	for v := n; v >= 0x80; v >>= 7 {
+		sz++
+	}
+	return sz
+}
+
+// c16SameBlockSet compares two block lists as multisets of (CID, data).
+func c16SameBlockSet(got, want []refcar.Block) string {
+	count := map[string]int{}
+	for _, b := range want {
+		count[string(b.Cid)+"\x00"+string(b.Data)]++
+	}
+	for _, b := range got {
+		k := string(b.Cid) + "\x00" + string(b.Data)
+		if count[k] == 0 {
+			return fmt.Sprintf("holds %x (data %x) which was not successfully put, or holds it too often (%d blocks vs %d)", b.Cid, clip(b.Data), len(got), len(want))
+		}
+		count[k]--
+	}
+	if len(got) != len(want) {
+		return fmt.Sprintf("%d blocks vs %d", len(got), len(want))
+	}
+	return ""
 }
 
 // c16Pragma: the CARv2 pragma is written straight to the file (WriteAt in the blockstore, Write
@@ -674,9 +737,11 @@ func c16Pragma(x *kit.Ctx, cs C16Case) {
 			continue
 		}
 		if err == nil {
-			x.Fail("c16:"+cs.Front+":"+cs.Class+":fault-swallowed:open", "the CARv2 pragma write failed (file not writable) but the constructor returned nil")
+			// constructors are outside the statement (Put, Finalize): recorded only
+			x.Outcome("beyond-statement:fault-swallowed:open")
+		} else {
+			x.Outcome("open-failed")
 		}
-		x.Outcome("open-failed")
 	}
 	os.Remove(path)
 }
@@ -851,8 +916,8 @@ func init() {
 			"variants: one PutMany([a, L300, b]) call after Put c (blockstore); sessions that RESUME a fault-free file holding c, s (finalized CARv2, unfinalized CARv2, CARv1; blockstore and storage.OpenReadableWritable); FinalizeReadOnly + Close instead of Finalize (blockstore); the CARv2 pragma write of blockstore/storage on a file (fails because the file is read-only, seam writes swallowed, with a writable control). " +
 			"ONE transient fault at EVERY write call: plain error (n = 0, also on zero-length writes), short write of every length, and full write reported with an error (quick: n in {0,1,2,mid,len-2,len-1,len} for writes > 64 bytes); " +
 			"continuations: {carry on, retry the failed Put/PutMany once} x after a failed finalize {stop, finalize again, Put k then finalize again}; TWO faults: every single-fault case (quick: first fault n in {0,1,len}) is executed by the generator to learn which writes the (deterministic) implementation issues after the first fault - re-created deferred-path file, retried calls, continuations - and the second fault is put on each of them (quick: n in {0,1,len}; thorough: every length 0..len), so every pair is reachable. " +
-			"Oracle: the faulted call returns an error and no call fails before the first fault; after every failed Put/PutMany, on the still open store, each block whose Put failed has Has = (false, nil), no Get/GetSize, no AllKeysChan entry and no live index record, and each acknowledged block has Has = (true, nil), Get = its data, and is listed (after a failed finalize: same but errors tolerated); blocks of a failed PutMany before the failing one may be either but consistently; " +
-			"if every call after the last fault succeeds incl. the last finalize (and Close), the file strictly decodes (refcar) with the right version and roots, holds exactly the acknowledged blocks (incl. the resumed ones) and its index equals the records of its payload. A case is non-trivial when all its faults fired and its continuation ran (a single-fault case whose finalize did not fail has no continuation: outcome continuation-not-reached; a first fault that is not reached is reported as c16:harness:fault-not-reached)",
+			"Oracle: the faulted Put/PutMany/Finalize/Close returns an error (a constructor that does not report its failed write is an outcome beyond-statement:fault-swallowed:open; the session goes on) and no call fails before the first fault; after every failed Put/PutMany and failed finalize each block whose Put failed is not reported as stored (Has not true, no Get/GetSize, no AllKeysChan entry, no live index record) and no acknowledged block is answered wrongly (Has not false, Get = its data if it answers, listed if AllKeysChan answers); ERRORS of these reads on the still open store are outcomes beyond-statement:{has,get,keys}-error-after-failed-write, not violations; blocks of a failed PutMany before the failing one - located by the BYTES the call wrote before the faulted write against the section sizes, skipping blocks the store already had - may be either but consistently; " +
+			"if every call after the last fault succeeds incl. the last finalize (and Close), the file strictly decodes (refcar; padding content is not judged) with the right version and roots, holds exactly the acknowledged blocks (incl. the resumed ones; compared as a multiset) and its index, if it has one (none: outcome beyond-statement:no-index), equals the records of its payload. A case is non-trivial when all its faults fired and its continuation ran (a single-fault case whose finalize did not fail has no continuation: outcome continuation-not-reached; a first fault that is not reached is reported as c16:harness:fault-not-reached)",
 		Bound: func(tier string) map[string]any {
 			m := map[string]any{"sessions": 40, "continuations": "2 x 3", "fault shapes": "error, short (every length), full+error, zero-length"}
 			if tier == "thorough" {
@@ -870,7 +935,8 @@ func init() {
 			"a short write always comes with an error (a writer returning n < len(p) and a nil error breaks the io.Writer contract: out of scope)",
 			"the pragma write of the file-backed front-ends (blockstore WriteAt, storage/deferred-path Write on the *os.File) bypasses the seam: it is faulted only as 'file not writable' (blockstore, storage) and positionally on the in-memory device; not at all for the deferred path writer, which shares storage.NewWritable",
 			"Truncate and Seek issued by Resume are not faultable (no seam); re-opening after a failed resume is C06's domain",
-			"after a failed PutMany the blocks written before the failing one are neither required nor forbidden (PutMany reports one error for the batch)",
+			"after a failed PutMany the blocks written before the failing one are neither required nor forbidden (PutMany reports one error for the batch); the failing block is the one whose section is not completed by the bytes written before the faulted write",
+			"the statement covers Put and Finalize: constructors that swallow a write fault, read errors (as opposed to wrong answers) of a store after a failed write, the order of the blocks in the archive and the presence of an index are recorded as beyond-statement outcomes",
 		},
 	})
 }
